@@ -74,7 +74,7 @@ pub struct C02 {
 }
 
 /// body lengths around every boundary the property names
-fn sweep_lengths(exp: Exp, dir: Dir) -> Vec<usize> {
+pub fn sweep_lengths(exp: Exp, dir: Dir) -> Vec<usize> {
     let max_expressible = match (exp, dir) {
         (_, Dir::Client) => 0xFFFF - 4,
         (Exp::Wrath, Dir::Server) => 0x7FFFFF - 2,
